@@ -1,10 +1,229 @@
+/-
+C13 — RAC writing then reading returns the original bytes, and the file is spec-valid;
+errors are sticky.
+
+Property theorems over the models of lib/rac/writer.go and chunk_writer.go
+(`Model/Rac/WriteBuffer.lean`, `ChunkWriter.lean`, `Writer.lean`, written for the code as repaired by
+fixes/C13-*.patch) and the independent reader `Model/Rac/Spec.lean` written from
+doc/spec/rac-spec.md.  Helper lemmas: `Proof/Rac*.lean`.
+-/
 import WuffsVerif.Model.Rac.WriteBuffer
+import WuffsVerif.Model.Rac.ChunkWriter
+import WuffsVerif.Model.Rac.Writer
+import WuffsVerif.Model.Rac.HCodec
+import WuffsVerif.Model.Rac.Spec
+import WuffsVerif.Proof.RacWBuf
+import WuffsVerif.Proof.RacWriter
+import WuffsVerif.Proof.RacGather
+import WuffsVerif.Proof.RacFault
+
 namespace WuffsVerif.Props.C13
 open WuffsVerif.Rac
 
-theorem placeholder1 : (1 : Nat) = 1 := rfl
-theorem placeholder2 : (1 : Nat) = 1 := rfl
-theorem placeholder3 : (1 : Nat) = 1 := rfl
-theorem placeholder4 : (1 : Nat) = 1 := rfl
-theorem placeholder5 : (1 : Nat) = 1 := rfl
+/-! ## 1. The write buffer refines a byte queue -/
+
+/-- `wbuf_refines_queue`: with `abs b = b.prev.drop b.p ++ b.curr`,
+* `extend c` appends `c` (it panics only if `curr` is non-empty),
+* `length` is the queue's length,
+* `peek n` returns the first `min n |abs|` bytes, split in two,
+* `advance n` drops them,
+* `advancePastLeadingZeroes` drops exactly the maximal run of leading zeroes *of the queue*
+  and reports its length,
+* `compact` preserves the queue, empties `curr` and resets `p`,
+and the representation invariant `p ≤ |prev|` is preserved by all of them. -/
+theorem wbuf_refines_queue (b : WBuf) (hwf : b.WF) :
+    (∀ c, b.curr = [] → ∃ b', b.extend c = some b' ∧ b'.abs = b.abs ++ c ∧ b'.WF) ∧
+    b.length = b.abs.length ∧
+    (∀ n, (b.peek n).1 ++ (b.peek n).2 = b.abs.take n) ∧
+    (∀ n, n ≤ b.length → (b.advance n).abs = b.abs.drop n ∧ (b.advance n).WF) ∧
+    (let r := b.advancePastLeadingZeroes
+     r.2 = countLeadingZeroes b.abs ∧
+     b.abs = List.replicate r.2 0 ++ r.1.abs ∧ r.1.abs.head? ≠ some 0 ∧ r.1.WF) ∧
+    (b.compact.abs = b.abs ∧ b.compact.curr = [] ∧ b.compact.p = 0 ∧ b.compact.WF) := by
+  refine ⟨?_, WBuf.length_eq b, WBuf.peek_refines b, ?_, ?_, WBuf.compact_refines b⟩
+  · intro c hc
+    exact ⟨_, (WBuf.extend_refines b c hc).1, (WBuf.extend_refines b c hc).2, hwf⟩
+  · intro n hn
+    exact ⟨WBuf.advance_refines b n hn, WBuf.advance_WF b n hwf⟩
+  · obtain ⟨h1, h2, h3⟩ := WBuf.apz_refines b hwf
+    refine ⟨h1, ?_, ?_, h3⟩
+    · rw [h2, h1, ← take_countLeadingZeroes, List.take_append_drop]
+    · rw [h2, h1]; exact head_drop_countLeadingZeroes _
+
+/-- non-vacuity: a well-formed buffer with bytes left in `prev` and zeroes at the start of `curr` -/
+example : (⟨[9, 0, 1], [0, 2], 1⟩ : WBuf).WF ∧
+    (⟨[9, 0, 1], [0, 2], 1⟩ : WBuf).advancePastLeadingZeroes = (⟨[9, 0, 1], [0, 2], 2⟩, 1) := by
+  decide
+
+/-- The defect found on the pinned tree: `advancePastLeadingZeroes` as it was written does NOT
+refine the queue — on `prev = [0,1]`, `curr = [0,2]` it reports 2 zeroes and leaves the queue
+`[1,2]`, silently dropping the zero that follows the `1`. (Repaired by
+fixes/C13-advance-past-zeroes.patch; `wbuf_refines_queue` is about the repaired function.) -/
+theorem orig_apz_witness :
+    ∃ b : WBuf, b.WF ∧ b.advancePastLeadingZeroesOrig.1.abs ≠ b.abs.drop b.advancePastLeadingZeroesOrig.2 :=
+  ⟨⟨[0, 1], [0, 2], 0⟩, by decide⟩
+
+/-! ## 2. The chunks cover the input -/
+
+/-- `chunks_cover_input`: for every codec meeting its contract, every configuration (chunk sizing
+mode, sizes, page size, index location, temp file, resources, fault position), every sequence `ps`
+of `Write` calls on a fresh `Writer` — whatever those calls returned — if `Close` returns nil then
+the chunks handed to `ChunkWriter.AddChunk`, decompressed and zero-filled to their `dRangeSize`,
+concatenate to exactly `ps.flatten`.  Covers both `writeDChunks` (trailing-zero stripping) and
+`writeCChunks` (doubling search, `Cut`, leading-zero elision). -/
+theorem chunks_cover_input (cw : CodecW) (D : Bytes → Option Bytes) (hc : CodecContract cw D)
+    (w0 : Writer) (hfresh : w0.err = none ∧ w0.closed = false ∧ w0.chunkWriter.log = [] ∧ w0.uncompressed = {})
+    (ps : List Bytes)
+    (hok : ((Writer.runWrites cw w0 ps).Close cw).2 = none) :
+    Covers D ((Writer.runWrites cw w0 ps).Close cw).1.chunkWriter.log ps.flatten := by
+  obtain ⟨h1, h2, h3, h4⟩ := hfresh
+  have hinv0 : InvB D w0 [] := by
+    right
+    refine ⟨by rw [h4], by rw [h4], [], by rw [h3]; exact Covers.nil, by rw [h4]; rfl⟩
+  obtain ⟨hinv, hcl⟩ := runWrites_inv cw D hc ps w0 [] hinv0 h2
+  simp only [List.nil_append] at hinv
+  exact Close_covers cw D hc _ _ hinv hcl hok
+
+/-- non-vacuity of the codec contract: the identity codec (cut = truncate) meets it -/
+example : CodecContract
+    { compress := fun p q _ => .ok ⟨0, p ++ q, -1, -1⟩, canCut := true,
+      cut := fun _ enc m => .ok (enc, min m enc.length, min m enc.length),
+      wrapResource := fun r => .ok r, close := none } some := by
+  constructor
+  · intro p q rs out h; simp at h; rw [← h]
+  · intro c enc m enc' eLen dLen d h hd
+    simp at h hd
+    obtain ⟨rfl, rfl, rfl⟩ := h
+    subst hd
+    exact ⟨Nat.min_le_right _ _, rfl⟩
+
+/-! ## 3. The index tree is well-formed -/
+
+/-- `gather_wellformed`: for any non-empty list of leaf nodes (any resources, any number),
+the tree built by `gather` is `Good`: every branch has at most 255 elements (254 next to the Codec
+Element of a Long codec), lists — strictly sorted, duplicate-free — every resource its leaf children
+use, has at most two resources per child, and is never the parent of a single branch child (so a
+child's `DPtrMax` is smaller than its parent's: the RAC spec's anti-loop rule; this conjunct is
+false for the pinned code, see fixes/C13-gather-lone-branch.patch). -/
+theorem gather_wellformed (nodes : List WNode) (long : Bool) (hne : nodes ≠ [])
+    (hleaf : ∀ o ∈ nodes, o.children = []) :
+    (gather nodes long).Good (if long then 0xFE else 0xFF) :=
+  gather_good nodes long hne hleaf
+
+/-- non-vacuity / a concrete instance: 300 leaves with a resource each third leaf -/
+example : (gather ((List.range 300).map fun i => WNode.leaf 1 i (if i % 3 = 0 then 1 else 0) 0 0) false).children.length = 2 := by
+  decide +kernel
+
+/-- In a `Good` branch no resource tag (STag/TTag of a leaf naming one of the branch's resources)
+lands in the reserved zone `[0xC0, 0xFD]`: it is below `0xC0`, or `0xFF` for "no resource".
+`tagBase` is 1 iff the branch starts with a Codec Element (Long codec, budget 254). -/
+theorem resource_tag_not_reserved (budget tagBase : Nat) (cs : List WNode) (rs : List Nat) (r : Nat)
+    (hb : budget + tagBase ≤ 255) (ht : tagBase ≤ 1) (h1 : cs.length + rs.length ≤ budget) (h2 : rs.length ≤ 2 * cs.length) :
+    resourceToTagByte rs r tagBase < 0xC0 ∨ resourceToTagByte rs r tagBase = 0xFF := by
+  unfold resourceToTagByte
+  split
+  · split
+    · rename_i i hi
+      left
+      have hlt : i < rs.length := by
+        unfold List.idxOf? at hi
+        exact (List.findIdx?_eq_some_iff_getElem.mp hi).1
+      omega
+    · right; rfl
+  · right; rfl
+
+/-- a `Good` branch is accepted by `encodeNode`'s arity check -/
+theorem good_arity_fits (n : WNode) (long : Bool) (h : n.Good (if long then 0xFE else 0xFF))
+    (hb : n.children ≠ []) : n.children.length + n.resources.length + long.toNat ≤ 0xFF := by
+  cases n with
+  | mk d cs rs col s t c =>
+    simp only [WNode.Good, WNode.children, WNode.resources] at h hb ⊢
+    rcases h with h | h
+    · exact absurd h hb
+    · cases long <;> simp at h ⊢ <;> omega
+
+/-! ## 4. Sticky errors -/
+
+/-- once an error is recorded, `Write` returns it and changes nothing -/
+theorem sticky_Write (cw : CodecW) (w : Writer) (p : Bytes) (e : Err) (h : w.err = some e) :
+    w.Write cw p = (w, 0, some e) := by
+  unfold Writer.Write Writer.init
+  simp [h]
+
+theorem closeSteps_skip (cw : CodecW) (w : Writer) (e : Err) (h : w.err = some e) :
+    Writer.closeStep4 cw (Writer.closeStep3 (Writer.closeStep2 cw (Writer.closeStep1 cw w))) = w := by
+  have h1 : Writer.closeStep1 cw w = w := by
+    unfold Writer.closeStep1 Writer.init; simp [h]
+  have h2 : Writer.closeStep2 cw w = w := by
+    unfold Writer.closeStep2; simp [h]
+  have h3 : Writer.closeStep3 w = w := by
+    unfold Writer.closeStep3; simp [h]
+  have h4 : Writer.closeStep4 cw w = w := by
+    unfold Writer.closeStep4; simp [h]
+  rw [h1, h2, h3, h4]
+
+/-- once an error is recorded, `Close` returns it, keeps it, and writes nothing -/
+theorem sticky_Close (cw : CodecW) (w : Writer) (e : Err) (h : w.err = some e) :
+    (w.Close cw).2 = some e ∧ (w.Close cw).1.err = some e ∧
+    (w.Close cw).1.chunkWriter = w.chunkWriter := by
+  unfold Writer.Close
+  by_cases hc : w.closed = true
+  · simp [hc, h]
+  · rw [if_neg hc]
+    have hs := closeSteps_skip cw { w with closed := true } e h
+    simp only
+    rw [hs]
+    simp [h]
+
+/-- a successful `Close` leaves the sticky `errAlreadyClosed`, so every later call fails -/
+theorem closed_is_sticky (cw : CodecW) (w : Writer) (hcl : w.closed = false) (h : (w.Close cw).2 = none) :
+    (w.Close cw).1.err = some .alreadyClosed := by
+  unfold Writer.Close at h ⊢
+  rw [if_neg (by simp [hcl])] at h ⊢
+  simp only at h ⊢
+  split
+  · rfl
+  · rename_i hn
+    rw [if_neg hn] at h
+    simp only at h
+    simp [h] at hn
+
+/-- `first_error_sticky`: for every codec and every state `w` of a `Writer`,
+(a) if an underlying `io.Writer`/TempFile call fails during `Write(p)`, that `Write` returns an
+    error and records that same error;
+(b) likewise for `Close` (a `Close` that returns nil has seen no failure);
+(c) a recorded error is returned, unchanged and without any further output, by every later
+    `Write` and by `Close` — so `Close` is never nil after a failure. -/
+theorem first_error_sticky (cw : CodecW) (w : Writer) :
+    (∀ p, (w.Write cw p).1.chunkWriter.io.faulted ≠ w.chunkWriter.io.faulted →
+      ∃ x, (w.Write cw p).2.2 = some x ∧ (w.Write cw p).1.err = some x) ∧
+    (w.closed = false → (w.Close cw).1.chunkWriter.io.faulted ≠ w.chunkWriter.io.faulted →
+      ∃ x, (w.Close cw).2 = some x ∧ (w.Close cw).1.err = some x) ∧
+    (∀ x, w.err = some x →
+      (∀ p, w.Write cw p = (w, 0, some x)) ∧ (w.Close cw).2 = some x ∧ (w.Close cw).1.err = some x ∧
+      (w.Close cw).1.chunkWriter = w.chunkWriter) := by
+  refine ⟨?_, ?_, ?_⟩
+  · intro p hne
+    have h := Writer.Write_reports cw w p
+    generalize (w.Write cw p).2.2 = e at *
+    cases e with
+    | none => exact absurd h hne
+    | some x =>
+      rcases h with h | h
+      · exact absurd h hne
+      · exact ⟨x, rfl, h⟩
+  · intro hcl hne
+    cases hr : (w.Close cw).2 with
+    | none => exact absurd (Writer.Close_reports cw w hcl hr) hne
+    | some x => exact ⟨x, rfl, Writer.Close_records cw w x hr⟩
+  · intro x hx
+    exact ⟨fun p => sticky_Write cw w p x hx, sticky_Close cw w x hx⟩
+
+/-- non-vacuity: the very first underlying call (writing the magic) fails during `Write` -/
+example :
+    let cw := HCodec.codecW { codec := 0x3E00000000000000, oob := false }
+    let w : Writer := { dChunkSizeCfg := 1, chunkWriter := { io := { failAt := 1 } } }
+    (w.Write cw [7]).2.2 = some .fault ∧ (w.Write cw [7]).1.chunkWriter.io.faulted = true := by
+  decide +kernel
+
 end WuffsVerif.Props.C13
